@@ -215,7 +215,7 @@ def _boxes(tier):
             "           << <<0, 0>>, <<2, 1>>, <<-1, 1>>, <<1, 3>>, <<3, 0>> >>,\n"
             "           << <<1, 1>>, <<1, 1>>, <<-2, 0>>, <<0, -3>>, <<3, 1>>, <<2, 2>> >>}\n"
             "Box == \\E dirs \\in [1..2 -> DB], pos \\in Clouds, tol \\in {1, 3} :\n"
-            "         inp = [kind |-> \"vario_d\", d |-> 2, pos |-> pos, f |-> << [p \\in 1..Len(pos) |-> (p * p) % 5 - 2] >>,\n"
+            "         inp = [kind |-> \"vario_d\", d |-> 2, pos |-> pos, f |-> << [p \\in 1..Len(pos) |-> ((p * p) % 5) - 2] >>,\n"
             "                edges |-> <<0, 2, 4, 7>>, dirs |-> dirs, tol |-> tol]\n"),
         "vf_hist": (
             "G == [op |-> \"gen\", v |-> 0]\n"
@@ -565,7 +565,13 @@ def caller_directional(inp, out, expected, sink, nt):
         config.NUM_THREADS = old
     nd = len(inp["dirs"])
     got = (np.asarray(gam, dtype=np.double).reshape(nd, -1), np.asarray(cnt, dtype=np.int64).reshape(nd, -1))
-    if not close(got, expected, 1e-9):
+    # pairs of coincident points have no direction: the directions after the first may omit them (spec: open)
+    ok = got[0].shape == expected[0].shape
+    for u in range(nd if ok else 0):
+        for e, ((s_, c), (sz, cz)) in enumerate(zip(out["dirs"][u], out["coincident"])):
+            alts = [(s_, c)] + ([(s_ - sz, c - cz)] if u > 0 and cz else [])
+            ok = ok and any(got[1][u, e] == ca and abs(got[0][u, e] - sa / (2.0 * max(ca, 1))) <= 1e-9 for sa, ca in alts)
+    if not ok:
         sink("caller:vario_estimate:directional:defining-sum",
              "vario_estimate(direction=%s, angles_tol=%d*pi/8, NUM_THREADS=%s) differs from the defining sums computed by TLC (every "
              "direction counts every pair of its cone): expected %s, got %s" % (inp["dirs"], inp["tol"], nt, _lst(expected), _lst(got)),
